@@ -98,7 +98,7 @@ FbTag(n) == "fb:" \o n
 FbNode(n) == "FB:" \o n
 \* digest tags of n at the source: <<tag, manifest it resolves to, is the referrers fall-back tag>>
 DTagsOf(n) == {<<d[1], d[3], FALSE>> : d \in {d \in Sh.dtags : d[2] = n}} \cup
-              (IF FbNode(n) \in FBNodes THEN {<<FbTag(n), FbNode(n), TRUE>>} ELSE {})
+              (IF FbNode(n) \in FBNodes /\ n \notin Sh.long THEN {<<FbTag(n), FbNode(n), TRUE>>} ELSE {})
 SelKid(k) == /\ (k[2] \in {"entry", "bentry", "uentry"} /\ conf.plats) => k[3] = "linux/amd64"
              /\ k[2] = "ext" => conf.inclext
 RECURSIVE SeqOfSet(_)
